@@ -157,6 +157,8 @@ def run(ck, fb, fbd):
     registry(ck, fb)
     pending_deletions(ck, fb)
     topology_detection(ck, fb)
+    from . import readers
+    readers.optional_chunk_rule(ck, fb)
 
 
 # ------------------------------------------------------------------------------------------ (1)
